@@ -534,6 +534,9 @@ func (req *Request) Process(store StorageClient, stat *Stats) (resp *Response, e
 		key := req.Keys[0]
 		var suc bool
 		suc, err = store.Append(key, req.Item.Body)
+		// Append only borrows the body: the request buffer is still ours to release
+		cmem.DBRL.SetData.SubSizeAndCount(req.Item.CArray.Cap)
+		req.Item.CArray.Free()
 		if err != nil {
 			resp.Status = "SERVER_ERROR"
 			resp.Msg = err.Error()
@@ -545,6 +548,13 @@ func (req *Request) Process(store StorageClient, stat *Stats) (resp *Response, e
 		} else {
 			resp.Status = "NOT_STORED"
 		}
+
+	case "prepend":
+		// parsed like append but not supported by the storage: release the body read in Read
+		cmem.DBRL.SetData.SubSizeAndCount(req.Item.CArray.Cap)
+		req.Item.CArray.Free()
+		resp.Status = "SERVER_ERROR"
+		resp.Msg = "operation not support"
 
 	case "incr":
 		atomic.AddInt64(&stat.cmd_set, 1)
